@@ -7,6 +7,7 @@ import (
 	"io"
 	"net/url"
 	"runtime"
+	"sort"
 	"strings"
 	"time"
 
@@ -28,14 +29,14 @@ func init() {
 			"service/rtsp receive dispatcher", "bufio.Reader over the simulated connection"},
 		Stub: []string{"the TCP connection (sim.Conn: tape-chosen read chunking, EOF at an arbitrary byte)"},
 		Rule: "one run = 1-8 messages (requests, responses, interleaved frames of 0..65535 bytes) over the header/URL/body grammar (mixed-case and multi-valued headers, IPv6 hosts, " +
-			"bodies with CRLF) emitted by the real Write methods, concatenated on a simulated connection whose reads return tape-chosen chunk sizes; fault per run: none, EOF at an arbitrary byte, " +
+			"bodies with CRLF) emitted by the real Write methods (a third of the requests/responses instead written the way a peer implementation may: RFC 2326 field names, Content-Length and CSeq included, in arbitrary letter case; a third of the frames relayed: read by ReadPacket under the channel map of another connection, then written under the map of this one), concatenated on a simulated connection whose reads return tape-chosen chunk sizes; fault per run: none, EOF at an arbitrary byte, " +
 			"garbage after the k-th message, an endless header line (1 MiB without line end), Content-Length of 4e8 with a short body. Reader = the real receive dispatcher. " +
 			"distinct = event-log hash; non-trivial = a fault fired or chunked reads were on",
 		Assumptions: []string{
 			"'over-long' header line = 1 MiB, 'absurd' Content-Length = 4e8: the reader must fail before it has taken more than 256 KiB beyond the preceding messages from the link / allocated more than 64 MiB",
 			"multi-valued headers are compared by their comma-joined value (the codec's own tests define that form)",
 		},
-		RequiredProbes: []string{"c14.live-emit-with-concurrent-writer", "c14.eof-mid-message", "c14.roundtrip-complete"},
+		RequiredProbes: []string{"c14.live-emit-with-concurrent-writer", "c14.eof-mid-message", "c14.roundtrip-complete", "c14.peer-folded-case-names", "c14.relayed-frame-other-channel-map"},
 	})
 }
 
@@ -50,6 +51,7 @@ type c14Item struct {
 	data    []byte
 	raw     []byte
 	emit    func(io.Writer) error // writes the message once more, through the real Write method
+	foreign bool                  // written by a peer implementation: RFC 2326 header names in arbitrary letter case
 }
 
 // yieldDiscard is a peer that accepts everything slowly: every Write is a schedule point.
@@ -84,6 +86,15 @@ func (r *c14Rec) OnPack(p *srtsp.RTPPack) error {
 	// the packet is kept as delivered (the server queues it for its consumers): it must stay what it was when returned
 	r.items = append(r.items, c14Item{kind: "frame", channel: int(p.Channel), data: p.Data})
 	return nil
+}
+
+func c14Keys(h map[string][]string) []string {
+	var ks []string
+	for k := range h {
+		ks = append(ks, k)
+	}
+	sort.Strings(ks)
+	return ks
 }
 
 func c14HeadersEqual(want, got map[string][]string) string {
@@ -170,7 +181,67 @@ func buildC14(tier string) sim.Scenario {
 				}
 			}
 			before := stream.Len()
-			switch tp.Choose(3) {
+			kindSel := tp.Choose(3)
+			if kindSel != 2 && tp.OneIn(3) {
+				// a message from a peer implementation: header field names are case-insensitive (RFC 2326 4.2), so the
+				// standard fields arrive in any letter case, Content-Length and CSeq included
+				w.Probe("c14.peer-folded-case-names")
+				it.foreign = true
+				fold := func(name string) string {
+					switch tp.Choose(4) {
+					case 0:
+						return name
+					case 1:
+						return strings.ToUpper(name)
+					case 2:
+						return strings.ToLower(name)
+					}
+					b := []byte(name)
+					for i := range b {
+						if tp.Bool() {
+							if b[i] >= 'a' && b[i] <= 'z' {
+								b[i] -= 32
+							} else if b[i] >= 'A' && b[i] <= 'Z' {
+								b[i] += 32
+							}
+						}
+					}
+					return string(b)
+				}
+				std := []string{"CSeq", "Session", "Transport", "User-Agent", "Content-Type", "Public", "Range", "Accept"}
+				var sb strings.Builder
+				if kindSel == 0 {
+					it.kind = "req"
+					it.method = methods[tp.Choose(len(methods))]
+					it.url = urls[tp.Choose(len(urls))]
+					fmt.Fprintf(&sb, "%s %s RTSP/1.0\r\n", it.method, it.url)
+				} else {
+					it.kind = "resp"
+					it.status = []int{200, 401, 404, 455, 461, 500, 551}[tp.Choose(7)]
+					fmt.Fprintf(&sb, "RTSP/1.0 %d Status\r\n", it.status)
+				}
+				for k := 0; k < 1+tp.Choose(4); k++ {
+					name := std[tp.Choose(len(std))]
+					if _, dup := it.header[name]; dup {
+						continue
+					}
+					val := hvals[tp.Choose(len(hvals))]
+					it.header[name] = []string{val}
+					fmt.Fprintf(&sb, "%s: %s\r\n", fold(name), val)
+				}
+				it.body = mkBody()
+				if it.body != "" || tp.Bool() {
+					fmt.Fprintf(&sb, "%s: %d\r\n", fold("Content-Length"), len(it.body))
+				}
+				sb.WriteString("\r\n")
+				sb.WriteString(it.body)
+				rawMsg := []byte(sb.String())
+				stream.Write(rawMsg)
+				it.emit = func(wr io.Writer) error { _, err := wr.Write(rawMsg); return err }
+				kindSel = -1
+			}
+			switch kindSel {
+			case -1:
 			case 0:
 				it.kind = "req"
 				it.method = methods[tp.Choose(len(methods))]
@@ -222,6 +293,27 @@ func buildC14(tier string) sim.Scenario {
 					it.data[1] = 96
 				}
 				pk := &rtp.Packet{Channel: byte(it.channel), Data: it.data}
+				if tp.OneIn(3) {
+					// a relayed frame: it came in on another connection (a publisher or a camera) whose SETUP negotiated other
+					// channel numbers, was read there by ReadPacket, and is written here with this connection's numbers
+					w.Probe("c14.relayed-frame-other-channel-map")
+					other := [][]int{{0, 1, 2, 3}, {4, 5, 6, 7}, {2, 3, 0, 1}, {10, 11, 12, 13}}[tp.Choose(4)]
+					var in bytes.Buffer
+					if err := pk.Write(&in, other); err != nil {
+						w.Fail("C14/write-error", "Packet.Write: %v", err)
+						return
+					}
+					rp, err := rtp.ReadPacket(bufio.NewReader(&in), other)
+					if rp == nil {
+						w.Fail("C14/mismatch", "a frame written with channel map %v is not read back with the same map: %v", other, err)
+						return
+					}
+					if int(rp.Channel) != it.channel || !bytes.Equal(rp.Data, it.data) {
+						w.Fail("C14/mismatch", "a frame written with channel map %v reads back as ch%d %dB (was ch%d %dB)", other, rp.Channel, len(rp.Data), it.channel, len(it.data))
+						return
+					}
+					pk = rp
+				}
 				if err := pk.Write(&stream, chcfg); err != nil {
 					w.Fail("C14/write-error", "Packet.Write: %v", err)
 					return
@@ -376,6 +468,15 @@ func buildC14(tier string) sim.Scenario {
 				if e := c14HeadersEqual(a.header, b.header); e != "" {
 					w.Fail("C14/mismatch", "message %d (%s): %s", i, a.kind, e)
 					return
+				}
+				if a.foreign {
+					// the parsed message answers for the field under its standard name, whatever case the peer used
+					for name, vals := range a.header {
+						if g := frtsp.Header(b.header).Get(name); g != vals[0] {
+							w.Fail("C14/mismatch", "message %d (%s) from a peer that writes header names in its own letter case: field %s was sent with value %q, the parsed message has %q under that name (keys parsed: %v)", i, a.kind, name, vals[0], g, c14Keys(b.header))
+							return
+						}
+					}
 				}
 			}
 		}
